@@ -29,6 +29,7 @@ theorem toS_bounds (w : Nat) (x : Int) :
   have := truncS_bounds w true x
   simpa [truncS] using this
 
+mutual
 theorem bounds_sound (ρ : Nat → Int) : ∀ (v : VExpr), (bounds v).1 ≤ ideal ρ v ∧ ideal ρ v ≤ (bounds v).2
   | .lit w s v => by simp [bounds, ideal]
   | .id i w s => by simp only [bounds, ideal]; exact truncS_bounds w s (ρ i)
@@ -54,6 +55,7 @@ theorem bounds_sound (ρ : Nat → Int) : ∀ (v : VExpr), (bounds v).1 ≤ idea
     omega
   | .concat l => by
     have := idealConcat_range ρ l
+    have := concatHi_sound ρ l
     simp only [bounds, ideal]; omega
   | .repl n a => by
     have := replV_range (tn_nonneg (selfWidth a) (ideal ρ a)) (tn_lt (selfWidth a) (ideal ρ a)) n
@@ -71,6 +73,22 @@ theorem bounds_sound (ρ : Nat → Int) : ∀ (v : VExpr), (bounds v).1 ≤ idea
       rw [toS_tn_of_inRange hw this]
       exact ha
     · exact toS_bounds _ _
+theorem concatHi_sound (ρ : Nat → Int) : ∀ (l : List VExpr), idealConcat ρ l ≤ concatHi l
+  | [] => by simp [idealConcat, concatHi]
+  | e :: es => by
+    have ih := concatHi_sound ρ es
+    have he := bounds_sound ρ e
+    have h0 := tn_nonneg (selfWidth e) (ideal ρ e)
+    have h1 := tn_lt (selfWidth e) (ideal ρ e)
+    have hp := p2_pos (concatWidth es)
+    simp only [idealConcat, concatHi]
+    split
+    · rename_i h
+      have : tn (selfWidth e) (ideal ρ e) = ideal ρ e := tn_of_range (by omega) (by omega)
+      rw [this]
+      nlinarith
+    · nlinarith
+end
 
 /-- `inRange` is convex. -/
 theorem inRange_of_bounds {w : Nat} {s : Bool} {b : Int × Int} {x : Int} (h : inRangeB w s b = true)
